@@ -704,8 +704,8 @@ static void print_stats(const char *outcome)
 	    n_votes, s_vote_false_pred, s_vote_uncommitted, ac_mismatch(), n_ev[39], n_ev[38], n_fossil_attempts);
 #ifdef VERIF_FAKE_PEER
 	printf(",\"peer_events\":%lu,\"peer_antis\":%lu,\"peer_anti_with_event\":%lu,\"peer_responses\":%lu,\"peer_got_events\":%lu,"
-	       "\"peer_got_antis\":%lu,\"peer_rounds\":%lu,\"peer_forced_deliveries\":%lu,\"s_remote_id_not_unique\":%lu",
-	    fm_n_ev, fm_n_anti, fm_n_anti_first, fm_n_resp, fm_n_recv_ev, fm_n_recv_anti, fm_n_rounds, fm_n_forced, fm_dup_ids);
+	       "\"peer_got_antis\":%lu,\"peer_rounds\":%lu,\"peer_forced_deliveries\":%lu,\"s_remote_id_not_unique\":%lu,\"s_sent_count_wrong\":%lu,\"s_peer_below_gvt\":%lu,\"peer_delayed_deliveries\":%lu",
+	    fm_n_ev, fm_n_anti, fm_n_anti_first, fm_n_resp, fm_n_recv_ev, fm_n_recv_anti, fm_n_rounds, fm_n_forced, fm_dup_ids, fm_sent_count_wrong, fm_peer_below_gvt, fm_n_delayed);
 #endif
 	printf(",\"points\":[");
 	for(int t = 0; t < vs_registered && t < VS_MAXT; ++t)
@@ -839,6 +839,7 @@ int main(int argc, char **argv)
 	fm_cancel_span = (unsigned)argu(argc, argv, "pspan", 400);
 	fm_window = (unsigned)argu(argc, argv, "pwin", 24);
 	fm_late_burst = (unsigned)argu(argc, argv, "plate", 6);
+	fm_hold = (unsigned)argu(argc, argv, "phold", 0);
 	fm_ntypes = GM.n_types;
 #else
 	if(mode_dist || mode_rank)
